@@ -7,6 +7,7 @@ import re
 from lib import (Check, COMMON_TRUSTED, INT_MAX, INT_MIN, compile_batch, coq_list, coq_str, coq_z,
                  eval_strings, functions_of, known_for, run_coq_files, parse_nat_list)
 from mcvm import VM, Invalid, OutOfFuel, wrap
+import c01_ctx
 
 PROP = "C01"
 
@@ -299,6 +300,9 @@ def main(tier: str, replay: str | None = None) -> int:
                                "(Run.C01.load_ok: head lines of __load__ and the set of `players set <n> INT <n>` lines)"),
                      no_input=not any(len(packs[pi][1]) == 1 for pi in ints_bad))
 
+    # ---- the statements in a position that takes ONE command (strengthening round 4; placement proved under C02)
+    ctx_cov = c01_ctx.probe(ck, cases, CERTS, score_of, meaning, tier)
+
     distinct = len({(c["cert"], c["target"], c["op"], str(c["operand"])) for c in cases})
     hist = {}
     for c in cases:
@@ -312,6 +316,7 @@ def main(tier: str, replay: str | None = None) -> int:
         programs=len(packs), disagreements_checked=len(mism),
         semantic_runs=n_sem, branch_histogram=hist,
         correspondence="model text == real function body for every case; __int__ constant set equal per pack",
+        **ctx_cov,
     ))
     return ck.finish()
 
@@ -320,6 +325,8 @@ def replay(path: str) -> int:
     """Re-run the statement stored in a replay file against lib.REPO and print what happens."""
     import json
     r = json.load(open(path))
+    if r.get("mode") == "context":
+        return c01_ctx.replay(r, score_of)
     if "statement" not in r:
         print("replay file names a broken obligation/correspondence, not an input:", r.get("kind"))
         print(json.dumps(r, indent=1)[:3000])
